@@ -63,6 +63,14 @@ Theorem C10_broadcast : forall S sk, In sk bcast_fes -> forall cfg (l : units S)
 Proof. exact c10_broadcast. Qed.
 Print Assumptions C10_broadcast.
 
+(* the exact behaviour, raising datastores included: hosted units are visited in dict order, each at most
+   once, request.execute applied to each visited one, and the first failure ends the walk; nothing is sent *)
+Theorem C10_broadcast_exact : forall S sk, In sk bcast_fes -> forall cfg (l : units S) (rq : dreq S),
+  cf_bcast cfg = true -> rq_uid rq = 0 -> cf_single cfg = false -> NoDup (u_keys S l) ->
+  respond S code sk cfg l rq = (bcast_walk S rq l, [], None).
+Proof. exact c10_broadcast_exact. Qed.
+Print Assumptions C10_broadcast_exact.
+
 Theorem C10_broadcast_single : forall S sk, In sk bcast_fes -> forall cfg s (rq : dreq S),
   cf_bcast cfg = true -> rq_uid rq = 0 -> cf_single cfg = true ->
   respond S code sk cfg [(0, s)] rq = ([(0, fst (rq_exec rq s))], [], None).
